@@ -144,7 +144,8 @@ def correspond(ctx, scale):
                         other.train()
                         with torch.no_grad():
                             other(torch.randn(*shapes(layout, dim, rng)))
-                        q.load_state_dict(copy.deepcopy(other.state_dict()))
+                        # alternately the default in-place load and `assign=True`, which REPLACES the tensor objects (so does a device move)
+                        q.load_state_dict(copy.deepcopy(other.state_dict()), **({'assign': True} if rep % 2 == 1 else {}))
                         bump('history-ops')
                         continue
                     x = torch.randn(*shapes(layout, dim, rng))
